@@ -20,6 +20,7 @@ import (
 	"strconv"
 	"strings"
 	"sync"
+	"sync/atomic"
 	"time"
 
 	"github.com/meshplus/bitxhub/verif/vlog"
@@ -196,13 +197,29 @@ func run(sp spec, tier string, seed int64, par int, keep bool, override int) int
 	results := make([]*batchResult, len(jobs))
 	var wg sync.WaitGroup
 	sem := make(chan struct{}, par)
+	// a node that wedges costs one block watchdog (120 s) per case: once a batch has reported that, the verdict is a
+	// violation whatever the remaining batches show, and they are not started any more
+	var wedged int32
+	skipped := 0
 	for _, j := range jobs {
 		wg.Add(1)
 		sem <- struct{}{}
+		if atomic.LoadInt32(&wedged) > 0 {
+			<-sem
+			wg.Done()
+			skipped += j.to - j.from
+			continue
+		}
 		go func(j job) {
 			defer wg.Done()
 			defer func() { <-sem }()
-			results[j.idx] = runBatch(bin, sp, tier, seed, scratch, j.idx, j.from, j.to, nil)
+			br := runBatch(bin, sp, tier, seed, scratch, j.idx, j.from, j.to, nil)
+			for _, r := range br.recs {
+				if r.K == "viol" && strings.HasPrefix(r.Sig, "wedged:") {
+					atomic.StoreInt32(&wedged, 1)
+				}
+			}
+			results[j.idx] = br
 		}(j)
 	}
 	wg.Wait()
@@ -210,7 +227,12 @@ func run(sp spec, tier string, seed int64, par int, keep bool, override int) int
 	// ---- aggregate
 	agg := newAgg(sp, tier, seed)
 	for _, br := range results {
-		agg.add(br)
+		if br != nil {
+			agg.add(br)
+		}
+	}
+	if skipped > 0 {
+		agg.stats["cases_not_started_after_a_wedged_node"] += int64(skipped)
 	}
 	return agg.finish(t0, scratch, n)
 }
